@@ -1,7 +1,8 @@
 (* C03: the closed statements of Props/C03.v with their proofs (Props/C03.v restates them and refers here). *)
 From Coq Require Import List String Bool PrimFloat Permutation.
 From Verif Require Import Base.Result Base.Str Base.PyDict Model.Types Model.Domain Model.Exec Spec.Pddl
-  Proofs.C03_Spec Proofs.C03_Defs Proofs.C03_Refine Proofs.C03_Main Proofs.C03_Examples.
+  Proofs.C03_Spec Proofs.C03_Defs Proofs.C03_Refine Proofs.C03_Main Proofs.C03_Inner Proofs.C03_Examples
+  Corr.Core Proofs.C03_Judge.
 Import ListNotations.
 
 (* C03_successor.  For EVERY visiting order of the effect groups and of the universal effects the model returns a
@@ -15,11 +16,55 @@ Theorem C03_successor_lemma :
     evaluates d eps objs ga s ->
     consistent (all_groups eps (d_types d) objs (spec_action a effs) args s) = true ->
     forall order uorder, is_order order (List.length (ga_groups ga)) -> is_order uorder (List.length (ma_univ a)) ->
-    exists s', apply_op_o d eps ga (Some objs) false false order uorder s = Ok s' /\
+    exists s', apply_op d eps ga (Some objs) false false order uorder s = Ok s' /\
                state_eq s' (successor eps (d_types d) objs (spec_action a effs) args s).
 Proof.
   intros d eps a effs args ga objs s Hd Hn Hg Happ Hev Hc order uorder Ho Hu.
   exact (successor_gen d eps a effs args ga objs s Hd Hn Hg Hev false true Happ (or_introl eq_refl) Hc order uorder Ho Hu).
+Qed.
+
+(* The same, judged by the boolean comparator of the correspondence check (Corr.Core.state_equiv: facts as sets, fluent
+   maps with bit-equal values): on a state whose fluent list has no repeated key the comparator answers true. *)
+Theorem C03_successor_judged_lemma :
+  forall (d : mdomain) (eps : float) (a : maction) (effs : list eff) (args : list string) (ga : gaction)
+         (objs : objects) (s : state),
+    denote_effs a = Some effs -> names_ok d a = true ->
+    ground_action d a args = Ok ga ->
+    is_applicable d eps (Some objs) ga s = Ok true ->
+    evaluates d eps objs ga s ->
+    consistent (all_groups eps (d_types d) objs (spec_action a effs) args s) = true ->
+    NoDup (map fst (fluents s)) ->
+    forall order uorder, is_order order (List.length (ga_groups ga)) -> is_order uorder (List.length (ma_univ a)) ->
+    exists s', apply_op d eps ga (Some objs) false false order uorder s = Ok s' /\
+               state_equiv s' (successor eps (d_types d) objs (spec_action a effs) args s) = true.
+Proof.
+  intros d eps a effs args ga objs s Hd Hn Hg Happ Hev Hc Hk order uorder Ho Hu.
+  destruct (successor_gen d eps a effs args ga objs s Hd Hn Hg Hev false true Happ (or_introl eq_refl) Hc order uorder Ho Hu)
+    as [s' [E1 E2]].
+  exists s'. split; [exact E1|].
+  pose proof (apply_op_fire d eps objs ga false order uorder s true Happ (or_introl eq_refl) Hev) as E3.
+  rewrite E3 in E1. inversion E1; subst s'.
+  apply state_eq_state_equiv; [apply succ_keys; exact Hk | unfold successor; apply succ_keys; exact Hk | exact E2].
+Qed.
+
+(* Partial-correctness form, without "evaluates" and without "applicable": WHATEVER a call of apply returns (default flags or
+   allow_inapplicable_actions), in whatever visiting order, is the PDDL successor. *)
+Theorem C03_returned_is_successor_lemma :
+  forall (d : mdomain) (eps : float) (a : maction) (effs : list eff) (args : list string) (ga : gaction)
+         (objs : objects) (s s1 : state) (allow : bool) (order uorder : list nat),
+    denote_effs a = Some effs -> names_ok d a = true ->
+    ground_action d a args = Ok ga ->
+    is_order order (List.length (ga_groups ga)) -> is_order uorder (List.length (ma_univ a)) ->
+    apply_op d eps ga (Some objs) allow false order uorder s = Ok s1 ->
+    consistent (all_groups eps (d_types d) objs (spec_action a effs) args s) = true ->
+    state_eq s1 (successor eps (d_types d) objs (spec_action a effs) args s).
+Proof.
+  intros d eps a effs args ga objs s s1 allow order uorder Hd Hn Hg Ho Hu Hrun Hc.
+  assert (Hu' : is_order uorder (List.length (ma_univ (ga_action ga)))).
+  { destruct (ground_action_shape _ _ _ _ Hg) as [E _]. rewrite E. exact Hu. }
+  destruct (run_ok_evaluates d eps objs ga allow order uorder s s1 Ho Hu' Hrun) as [Hev [b [Happ Hb]]].
+  destruct (successor_gen d eps a effs args ga objs s Hd Hn Hg Hev allow b Happ Hb Hc order uorder Ho Hu) as [s2 [E1 E2]].
+  rewrite Hrun in E1. inversion E1; subst. exact E2.
 Qed.
 
 (* The schedules quantifier.  Two visiting orders that are permutations of each other give set-equal states.
@@ -36,8 +81,8 @@ Theorem C03_order_independent_lemma :
       is_order order (List.length (ga_groups ga)) -> Permutation order order' ->
       is_order uorder (List.length (ma_univ a)) -> Permutation uorder uorder' ->
       exists s1 s2,
-        apply_op_o d eps ga (Some objs) false false order uorder s = Ok s1 /\
-        apply_op_o d eps ga (Some objs) false false order' uorder' s = Ok s2 /\
+        apply_op d eps ga (Some objs) false false order uorder s = Ok s1 /\
+        apply_op d eps ga (Some objs) false false order' uorder' s = Ok s2 /\
         state_eq s1 s2.
 Proof.
   intros d eps a effs args ga objs s Hd Hn Hg Happ Hev Hc order order' uorder uorder' Ho HP Hu HPu.
@@ -56,8 +101,8 @@ Theorem C03_order_independent_model_lemma :
       is_order order (List.length (ga_groups ga)) -> is_order order' (List.length (ga_groups ga)) ->
       is_order uorder (List.length (ma_univ (ga_action ga))) -> is_order uorder' (List.length (ma_univ (ga_action ga))) ->
       exists s1 s2,
-        apply_op_o d eps ga (Some objs) allow false order uorder s = Ok s1 /\
-        apply_op_o d eps ga (Some objs) allow false order' uorder' s = Ok s2 /\
+        apply_op d eps ga (Some objs) allow false order uorder s = Ok s1 /\
+        apply_op d eps ga (Some objs) allow false order' uorder' s = Ok s2 /\
         state_eq s1 s2.
 Proof. exact order_independent_model. Qed.
 
@@ -69,11 +114,44 @@ Theorem C03_groups_commute_lemma :
     consistent gs = true -> rearr gs gs' -> state_eq (succ s gs) (succ s gs') /\ consistent gs' = true.
 Proof. intros s gs gs' Hc HR. split; [apply succ_rearr; assumption | eapply consistent_rearr; eauto]. Qed.
 
+(* Order independence needs no separate "evaluates" hypothesis: if the call returns in ONE visiting order then it returns
+   in every visiting order, with a set-equal result (consistency asked of the groups the model fires). *)
+Theorem C03_order_independent_run_lemma :
+  forall (d : mdomain) (eps : float) (objs : objects) (ga : gaction) (allow : bool) (order uorder : list nat) (s s1 : state),
+    is_order order (List.length (ga_groups ga)) -> is_order uorder (List.length (ma_univ (ga_action ga))) ->
+    apply_op d eps ga (Some objs) allow false order uorder s = Ok s1 ->
+    consistent (canon_groups d eps objs ga s) = true ->
+    forall order' uorder',
+      is_order order' (List.length (ga_groups ga)) -> is_order uorder' (List.length (ma_univ (ga_action ga))) ->
+      exists s2, apply_op d eps ga (Some objs) allow false order' uorder' s = Ok s2 /\ state_eq s1 s2.
+Proof. exact order_independent_run. Qed.
+
+(* The collections INSIDE the action object (discrete effects, numeric effects, conditional effects, universal effects
+   and the effect sets of each of them are hash sets in the library, lists in the model): two model actions that differ
+   only by the order of these lists denote the same successor. *)
+Theorem C03_stored_order_lemma :
+  forall (eps : float) (tt : tytree) (objs : objects) (a a' : maction) (effs : list eff) (args : list string) (s : state),
+    maction_perm a a' -> denote_effs a = Some effs ->
+    consistent (all_groups eps tt objs (spec_action a effs) args s) = true ->
+    exists effs', denote_effs a' = Some effs' /\
+      state_eq (successor eps tt objs (spec_action a effs) args s) (successor eps tt objs (spec_action a' effs') args s) /\
+      consistent (all_groups eps tt objs (spec_action a' effs') args s) = true.
+Proof. exact successor_maction_perm. Qed.
+
+(* Spec level: the order of the effects of an action and of the primitive effects inside each is immaterial. *)
+Theorem C03_effects_order_lemma :
+  forall (eps : float) (tt : tytree) (objs : objects) (A A' : action) (args : list string) (s : state),
+    a_params A = a_params A' -> effs_perm (a_effs A) (a_effs A') ->
+    consistent (all_groups eps tt objs A args s) = true ->
+    state_eq (successor eps tt objs A args s) (successor eps tt objs A' args s) /\
+    consistent (all_groups eps tt objs A' args s) = true.
+Proof. exact successor_effs_perm. Qed.
+
 (* Refusal: an inapplicable call raises ValueError unless allowed ... *)
 Theorem C03_refused_lemma :
   forall (d : mdomain) (eps : float) (ga : gaction) (objs : objects) (s : state) (order uorder : list nat),
     is_applicable d eps (Some objs) ga s = Ok false ->
-    apply_op_o d eps ga (Some objs) false false order uorder s = Err EValue.
+    apply_op d eps ga (Some objs) false false order uorder s = Err EValue.
 Proof. exact refused. Qed.
 
 (* ... and with allow_inapplicable_actions the forced successor is returned. *)
@@ -86,7 +164,7 @@ Theorem C03_forced_lemma :
     evaluates d eps objs ga s ->
     consistent (all_groups eps (d_types d) objs (spec_action a effs) args s) = true ->
     forall order uorder, is_order order (List.length (ga_groups ga)) -> is_order uorder (List.length (ma_univ a)) ->
-    exists s', apply_op_o d eps ga (Some objs) true false order uorder s = Ok s' /\
+    exists s', apply_op d eps ga (Some objs) true false order uorder s = Ok s' /\
                state_eq s' (successor eps (d_types d) objs (spec_action a effs) args s).
 Proof.
   intros d eps a effs args ga objs s b Hd Hn Hg Happ Hev Hc order uorder Ho Hu.
@@ -105,7 +183,7 @@ Section Returned.
   Hypothesis Hc : consistent (all_groups eps (d_types d) objs (spec_action a effs) args s) = true.
   Hypothesis Ho : is_order order (List.length (ga_groups ga)).
   Hypothesis Hu : is_order uorder (List.length (ma_univ a)).
-  Hypothesis Hret : apply_op_o d eps ga (Some objs) false false order uorder s = Ok s'.
+  Hypothesis Hret : apply_op d eps ga (Some objs) false false order uorder s = Ok s'.
 
   Let G := all_groups eps (d_types d) objs (spec_action a effs) args s.
 
@@ -144,7 +222,7 @@ End Returned.
 (* the hypotheses are satisfiable by a non-trivial action (add, delete, delete+add of one atom, increase, a firing
    'when', a non-firing 'when', a 'forall-when' over a type with a subtype), visited in the order [2;0;1] *)
 Theorem C03_example_lemma :
-  exists s', apply_op_o ex_dom ex_eps ex_ga (Some ex_objs) false false [2; 0; 1] [0] ex_state = Ok s' /\
+  exists s', apply_op ex_dom ex_eps ex_ga (Some ex_objs) false false [2; 0; 1] [0] ex_state = Ok s' /\
              state_eq s' (successor ex_eps (d_types ex_dom) ex_objs (spec_action ex_act ex_effs) ex_args ex_state).
 Proof. exact ex_successor. Qed.
 
